@@ -247,6 +247,81 @@ func c02FieldTargets(c *Ctx, r *Report) {
 		}
 	}
 	r.need("reflect Field() targets in the data-record parser", n, 2)
+	// exactness: a field present in the record and listed in the profile of a known message *is* decoded —
+	// the calls that decode a field value (the scalar / array / time parsers, the coordinate Sets) are
+	// control dependent, on the error-free part of the flow graph, only on "message known", "row found",
+	// the row's own kind / array flag, loops and error exits. A further test (on the field's number or
+	// size, on another field, on an option) leaves present fields at their invalid value.
+	if fn := c.ssaFn(c.fn(c.fit, "decoder.parseDataFields")); fn != nil {
+		var rowDerived func(v ssa.Value, depth int) bool
+		rowDerived = func(v ssa.Value, depth int) bool {
+			if depth > 6 {
+				return false
+			}
+			switch x := v.(type) {
+			case *ssa.Const:
+				return true
+			case *ssa.BinOp:
+				return rowDerived(x.X, depth+1) && rowDerived(x.Y, depth+1)
+			case *ssa.UnOp:
+				if x.Op == token.NOT {
+					return rowDerived(x.X, depth+1)
+				}
+				if x.Op == token.MUL {
+					if fa, ok := x.X.(*ssa.FieldAddr); ok && isFieldOf(fa, "field", "t") {
+						_, isRow := rowOf(fa.X)
+						return isRow
+					}
+				}
+				return false
+			case *ssa.Call:
+				f := x.Common().StaticCallee()
+				if f == nil || f.Signature.Recv() == nil || fnPkgPath(f) != typesPath {
+					return false
+				}
+				return rowDerived(x.Common().Args[0], depth+1)
+			case *ssa.Convert:
+				return rowDerived(x.X, depth+1)
+			}
+			return false
+		}
+		leaf := func(v ssa.Value) bool {
+			if p, ok := v.(*ssa.Parameter); ok && p.Name() == "knownMsg" {
+				return true
+			}
+			if _, _, ok := foundCond(v); ok {
+				return true
+			}
+			if _, _, isNil := nilTest(v); isNil {
+				return true
+			}
+			if _, ok := knownTableIndex(v); ok {
+				return true
+			}
+			return rowDerived(v, 0)
+		}
+		nDec := 0
+		for _, ci := range allCalls(fn) {
+			f := ci.Common().StaticCallee()
+			if f == nil {
+				continue
+			}
+			isDec := false
+			switch f.Name() {
+			case "parseFitField", "parseFitFieldArray", "parseTimeStamp":
+				isDec = fnPkgPath(f) == modPath
+			case "Set":
+				isDec = f.String() == "(reflect.Value).Set"
+			}
+			if !isDec {
+				continue
+			}
+			nDec++
+			extra := extraControllersBy(c, fn, ci.Block(), true, leaf)
+			r.check(extra == "", "C02-R4-field-targets", fmt.Sprintf("parseDataFields/decoded-iff-listed#%d", nDec), c.pos(ci.Pos()), "decoded for every listed field of a known message (controlled by known / found / the row's kind only)", "whether a present, listed field is decoded also depends on "+extra+": fields for which that fails keep their invalid value although the record carries them")
+		}
+		r.need("field-decoding calls in parseDataFields", nDec, 4)
+	}
 }
 
 // c02SkipBySize: R5.
